@@ -549,6 +549,35 @@ def run(chk):
             chk.fail('unclean', f'RecursionError at nesting depth {d} (<= 200)', {'text': nested(d, 0), 'kind': 'nested-0'})
     chk.notes.append('nesting depths 1..200 parsed on the implementation without RecursionError (4 shapes each, '
                      'incl. unclosed and over-closed); the Coq model has no stack bound')
+    entrypoint_stream(chk)
+
+
+def entrypoint_stream(chk):
+    """All entry points of one operation (module functions, PENMANCodec methods, stream variants) must accept the same
+    language and report the same positions; and line ends: LF, CRLF and a LONE CR, also in the stream variants."""
+    from harness import entrypoints
+    rng = chk.rng
+    n = 3000 if chk.tier == 'quick' else 30000
+    texts = []
+    for i in range(n):
+        s = gen.random_penman_text(rng, p_bad=0.4) if i % 3 else random_triples_text(rng)
+        r = rng.random()
+        if r < .25:
+            s = s.replace('\n', '\r')              # lone CR line ends
+        elif r < .4:
+            s = s.replace('\n', '\r\n')
+        if rng.random() < .3:                      # leading blanks / blank lines / a non-ASCII blank in front
+            s = rng.choice(['\n\n  ', ' ', '\t\n', '\xa0', '\r', '\n']) + s
+        if rng.random() < .15:
+            s = s + rng.choice([' ', '\n', '\r\n', ' \xa0'])
+        texts.append(s)
+    for s in texts:
+        chk.count(('entry', s))
+        bad = entrypoints.disagreement(entrypoints.parse_variants(s)) or entrypoints.disagreement(entrypoints.triples_variants(s))
+        if bad:
+            chk.fail('entry-point', 'entry points disagree: ' + bad, {'kind': 'entry-points', 'text': s})
+    # the same texts through the model-vs-implementation comparison (they contain CR / CRLF / leading blanks)
+    check_batch(chk, [('entry-points', s) for s in texts], size=400)
 
 
 def replay(obj):
